@@ -56,8 +56,12 @@ fn sentences(src: &mut Src, st: &mut Stats, _env: &Env) -> CaseResult {
             return Ok(());
         }
     };
+    let before = disturb(src, st);
     st.eval();
-    let v = compare_accept("sentences", &text)?;
+    let v = compare_accept("sentences", &text).map_err(|mut f| {
+        f.case["preceded_by_failing_compiles"] = json!(before);
+        f
+    })?;
     if v != Verdict::BothAccept {
         return Err(Failure::new("sentences", "harness-generator", "generated sentence rejected by both".into(), json!({"expression": text})));
     }
@@ -219,6 +223,44 @@ fn replay_repeat(case: &Value, _env: &Env) -> CaseResult {
     compare_accept("repeats", &text).map(|_| ())
 }
 
+/// Exhaustive small scope: every token sequence up to a length bound over a
+/// token alphabet (with and without blanks between the tokens).
+fn enumerate(env: &Env, st: &mut Stats) -> Vec<Failure> {
+    let thorough = env.tier == Tier::Thorough;
+    let mut plan: Vec<(&[&str], usize)> = vec![];
+    for l in 1..=(if thorough { 6 } else { 5 }) {
+        plan.push((ENUM_WIDE, l));
+    }
+    plan.push((ENUM_NARROW, 6));
+    if thorough {
+        plan.push((ENUM_NARROW, 7));
+    }
+    let mut fails = vec![];
+    for (alphabet, len) in plan {
+        let fs = enumerate_tokens(alphabet, len, 16, env, st, |text, local| {
+            let v = compare_accept("enumerate", text)?;
+            if v == Verdict::BothAccept {
+                local.class("enumerate:accepted");
+                local.nontrivial(text);
+            } else {
+                local.class("enumerate:rejected");
+            }
+            Ok(())
+        });
+        st.class_n(&format!("enumerate:{}-tokens-over-{}", len, alphabet.len()), 2 * (alphabet.len() as u64).pow(len as u32));
+        fails.extend(fs);
+        if !fails.is_empty() {
+            break;
+        }
+    }
+    st.sample(|| json!({"enumerated": "all token sequences", "alphabet": ENUM_WIDE, "up_to_tokens": 5}));
+    fails
+}
+
+fn replay_enumerated(case: &Value, _env: &Env) -> CaseResult {
+    compare_accept("enumerate", case["expression"].as_str().unwrap_or("")).map(|_| ())
+}
+
 fn fuzz_run(env: &Env, st: &mut Stats) -> Vec<Failure> {
     crate::fuzzing::campaign("syntax_diff", env, st, 240)
 }
@@ -243,6 +285,7 @@ pub fn property() -> Property {
         subs: vec![
             Sub::Custom(CustomSub { name: "corpus", run: corpus_all, replay: replay_text }),
             Sub::Custom(CustomSub { name: "repeats", run: repeats, replay: replay_repeat }),
+            Sub::Custom(CustomSub { name: "enumerate", run: enumerate, replay: replay_enumerated }),
             Sub::Custom(CustomSub { name: "fuzz-syntax_diff", run: fuzz_run, replay: fuzz_replay }),
             Sub::Bytes(BytesSub { name: "sentences", f: sentences, max_len: 1500, quick: Budget { threads: 8, cases: 2500 }, thorough: Budget { threads: 16, cases: 80_000 }, keep_unreproducible: false }),
             Sub::Bytes(BytesSub { name: "mutants", f: mutants, max_len: 1200, quick: Budget { threads: 8, cases: 6000 }, thorough: Budget { threads: 16, cases: 300_000 }, keep_unreproducible: false }),
